@@ -330,6 +330,41 @@ theorem c11_plain_strict_success_means_the_text_itself_is_json (env : Env J S C)
 example : ∃ st' r, (fold toyEnv (Cfg.new []) Stats.zero rawClean []).res = .ok (st', r) ∧ r.valid = true ∧
     (∀ s, s ≠ .strict → st'.succ s = Stats.zero.succ s) := ⟨_, _, rfl, rfl, by intro s hs; cases s <;> simp_all [bump, Stats.zero]⟩
 
+/-- STRICT alone rejects what json parsing rejects: when `json.loads` of the stripped text raises (whatever it raises)
+    and STRICT is the only requested strategy (any number of times), both folds report invalid — for a text with a byte
+    order mark in front of the JSON as for any other. -/
+theorem c11_strict_alone_rejects_what_json_parsing_rejects (env : Env J S C) (cfg : Cfg) (st : Stats) (raw : Text)
+    (call : List Strategy) (e : Exc) (hl : env.loads (strip raw) = .raise e)
+    (honly : ∀ s ∈ effective cfg call, s = .strict) :
+    (∀ st' r, (fold env cfg st raw call).res = .ok (st', r) → r.valid = false ∧ r.struct = none) ∧
+    (∀ st' r, (foldX env cfg st raw call).res = .ok (st', r) → r.valid = false ∧ r.struct = none ∧ r.confidence = 0) := by
+  constructor
+  · intro st' r h
+    cases hv : r.valid with
+    | false => exact ⟨rfl, (c11_invalid_has_no_structure_and_a_trace env cfg st st' raw call r h hv).1⟩
+    | true =>
+      obtain ⟨s, hs, d, v, _, _, hder, _, _⟩ := c11_valid_is_validated env cfg st st' raw call r h hv
+      have := honly s hs
+      subst this
+      simp only [Derived] at hder
+      rw [hl] at hder; cases hder
+  · intro st' r h
+    cases hv : r.valid with
+    | false =>
+      have := c11_invalid_has_no_structure_and_a_trace_enhanced env cfg st st' raw call r h hv
+      exact ⟨rfl, this.1, this.2.2.1⟩
+    | true =>
+      obtain ⟨s, hs, d, v, _, _, hder, _, _, _⟩ := c11_valid_is_validated_enhanced env cfg st st' raw call r h hv
+      have := honly s hs
+      subst this
+      simp only [Derived] at hder
+      rw [hl] at hder; cases hder
+
+/-- U+FEFF `{}`: a byte order mark in front of `{}`; the toy `json.loads` rejects it -/
+example : toyEnv.loads (strip [0xfeff, 123, 125]) = .raise .jsonDecode ∧
+    ∃ st' r, (foldX toyEnv (Cfg.new [.strict]) Stats.zero [0xfeff, 123, 125] []).res = .ok (st', r) ∧ r.valid = false :=
+  ⟨by decide, _, _, rfl, rfl⟩
+
 /-- `str.strip()` as the model has it removes white space and nothing else: the text is `a ++ strip t ++ b` with `a`
     and `b` all white space (`str.isspace`), and what remains neither starts nor ends with white space. -/
 theorem c11_strip_removes_white_space_only (t : Text) :
